@@ -160,7 +160,7 @@ def evaluate(case, directory, differential=True):
                 zig.append(times[lo])
             lo, hi = lo + 1, hi - 1
         passes = [('descending', times[::-1])]
-        if case['order'] == sorted(case['order']):
+        if case['order'] == sorted(case['order']) and (len(case['dates']) <= 3 or case.get('differential')):
             # (the order of the rows in the file and the order of the questions are independent dimensions)
             passes += [('zigzag', zig), ('other zones', times)]
         for order_name, seq in passes:
